@@ -49,22 +49,39 @@ Definition jtok (zeros : list (path * string)) (p : option path) (r : res val) :
   | Stuck => "<stuck>"
   end.
 
-Definition value_of (c : jcase) (sd : sdecl) (reads : list (path * string)) : val :=
-  VPtr (obs_value (jc_pkg c) (jc_fuel c) true reads (self_inst sd) []).
+(* the value the oracle read, rebuilt: a leaf whose raw JSON is the raw JSON of its type's zero value is the zero value
+   (VZero), any other leaf holds its token; embedded pointers are allocated (NewT) *)
+Fixpoint jobs_value (pkg : pkg_spec) (fuel : nat) (zeros reads : list (path * string)) (si : sinst) (pre : path) : val :=
+  VStruct (map (fun tf : tfield => let '(n, ft, emb) := tf in
+    (n, match (if emb then struct_of pkg ft else None) with
+        | Some si' =>
+            match fuel with
+            | O => VZero
+            | S fuel' => let x := jobs_value pkg fuel' zeros reads si' (pre ++ [n])%list in
+                         if is_ptr_ty ft then VPtr x else x
+            end
+        | None => match passoc (pre ++ [n])%list reads, passoc (pre ++ [n])%list zeros with
+                  | Some t, Some z => if String.eqb t z then VZero else VS t
+                  | Some t, None => VS t
+                  | None, _ => VZero end
+        end)) (struct_fields si)).
+
+Definition value_of (c : jcase) (sd : sdecl) (zeros reads : list (path * string)) : val :=
+  VPtr (jobs_value (jc_pkg c) (jc_fuel c) zeros reads (self_inst sd) []).
 
 Definition jleaves (c : jcase) (sd : sdecl) : list path := leaf_paths (jc_pkg c) (jc_fuel c) (self_inst sd) [].
 
 Definition model_keys (c : jcase) (v : view) (sd : sdecl) (jd : json_data) (o : jobs) : option (list (string * string)) :=
-  match marshal_fields (jc_pkg c) v (jc_fuel c) sd jd (value_of c sd (jo_leaves o)) (jd_list jd) with
+  match marshal_fields (jc_pkg c) v (jc_fuel c) sd jd (value_of c sd (jo_zeros o) (jo_leaves o)) (jd_list jd) with
   | Ok fy => Some (map (fun p : ident * val =>
                           (json_key jd (fst p), jtok (jo_zeros o) (resolve (jc_pkg c) (jc_fuel c) sd (fst p)) (Ok (snd p))))
-                       (filter (fun p : ident * val => negb (json_dropped jd (fst p))) fy))
+                       (filter (json_kept jd) fy))
   | _ => None
   end.
 
 Definition model_after (c : jcase) (v : view) (sd : sdecl) (jd : json_data) (o : jobs) : option (list (path * string)) :=
   let kv := map (fun kr : string * string => (fst kr, VS (snd kr))) (jo_keys o) in
-  match unmarshal (jc_pkg c) v (jc_fuel c) sd jd kv (value_of c sd (jo_before o)) with
+  match unmarshal (jc_pkg c) v (jc_fuel c) sd jd kv (value_of c sd (jo_zeros o) (jo_before o)) with
   | Ok w => Some (map (fun p => (p, jtok (jo_zeros o) (Some p) (lookup w p))) (jleaves c sd))
   | _ => None
   end.
@@ -114,24 +131,34 @@ Definition leaf_accessor (c : jcase) (sv : view) (sd : sdecl) (getter : bool) (p
   | None => false
   end.
 
-Record leaf_spec := { ls_path : path; ls_key : string; ls_exp : bool; ls_get : bool; ls_set : bool }.
+Record leaf_spec := { ls_path : path; ls_key : string; ls_tag : string; ls_exp : bool; ls_get : bool; ls_set : bool }.
 
 Definition leaf_specs (c : jcase) (sv : view) (sd : sdecl) : list leaf_spec :=
-  map (fun p => {| ls_path := p; ls_key := spec_key_tag (jc_flags c) sd p;
+  map (fun p => {| ls_path := p; ls_key := spec_member (jc_pkg c) (jc_flags c) (jc_fuel c) sd p;
+                   ls_tag := if fl_json (jc_flags c) then spec_tag (jc_pkg c) (jc_fuel c) sd p else "";
                    ls_exp := is_exported (last p "");
                    ls_get := negb (is_exported (last p "")) && fst (type_switch (jc_flags c) sd) && leaf_accessor c sv sd true p;
                    ls_set := negb (is_exported (last p "")) && snd (type_switch (jc_flags c) sd) && leaf_accessor c sv sd false p |})
       (selectable_leaves (jc_pkg c) (jc_fuel c) sd).
 
-Definition ls_in_json (l : leaf_spec) : bool := ls_exp l || ls_get l || ls_set l.
+(* a field tagged json:"-" is no member and is not touched *)
+Definition ls_dash (l : leaf_spec) : bool := String.eqb (ls_tag l) "-".
+Definition ls_in_json (l : leaf_spec) : bool := negb (ls_dash l) && (ls_exp l || ls_get l || ls_set l).
 
 (* "some field needs the JSON code": an accessor-backed unexported field, or an untagged exported field whose
    transformed name differs from its name *)
 Definition needs_json (c : jcase) (sd : sdecl) (ls : list leaf_spec) : bool :=
-  existsb (fun l => if ls_exp l
-                    then String.eqb (if fl_json (jc_flags c) then spec_tag sd (ls_path l) else "") "" &&
-                         negb (String.eqb (ls_key l) (last (ls_path l) ""))
+  existsb (fun l => negb (ls_dash l) &&
+                    if ls_exp l
+                    then String.eqb (ls_tag l) "" && negb (String.eqb (ls_key l) (last (ls_path l) ""))
                     else ls_get l || ls_set l) ls.
+
+(* an embedded selected struct of the closure has JSON code of its own: its MarshalJSON / UnmarshalJSON are promoted to a
+   struct that has none (finding K_json_promoted_marshaler) *)
+Definition embedded_has_json (c : jcase) (sd : sdecl) : bool :=
+  existsb (fun e : ident * ty => match find (fun o => String.eqb (jo_name o) (fst e)) (jc_structs c) with
+                                 | Some oe => jo_has_json oe | None => false end)
+          (first_embedded (jc_pkg c) (jc_fuel c) sd).
 
 Definition Pb_jstruct (c : jcase) (sv : view) (o : jobs) : bool :=
   match find_struct (jc_pkg c) "" (jo_name o) with
@@ -139,21 +166,28 @@ Definition Pb_jstruct (c : jcase) (sv : view) (o : jobs) : bool :=
   | Some sd =>
       let ls := leaf_specs c sv sd in
       N.eqb (jo_status o) 0 &&
-      (* a struct none of whose fields needs the JSON code: encoding/json's defaults apply (or an embedded type's
-         promoted MarshalJSON, finding K_json_promoted_marshaler); the property's sentences are not evaluated, the
-         model comparison still checks that no JSON code is emitted *)
-      if negb (needs_json c sd ls) then true
+      (* a struct none of whose fields needs the JSON code: encoding/json's defaults must give the same members (the
+         sentences below are evaluated all the same) -- unless an embedded struct's MarshalJSON is promoted to it *)
+      if negb (needs_json c sd ls) &&
+         (embedded_has_json c sd ||
+          (* encoding/json's own dominance rule works on member names, Go's on field names: with a shadowed leaf the
+             defaults may list both fields; only shoot-generated code is judged there *)
+          negb (Nat.eqb (length (selectable_leaves (jc_pkg c) (jc_fuel c) sd)) (length (jleaves c sd))))
+      then true
       else
-        jo_has_json o && negb (jo_err o) &&
+        (negb (needs_json c sd ls) || jo_has_json o) && negb (jo_err o) &&
         (* one key per exported field and per unexported field with an accessor, named by the explicit tag else the
-           transformed name, in declaration order; the value: the field's (getter / exported), zero without a getter *)
+           transformed name, in declaration order; the value: the field's (getter / exported), zero without a getter;
+           a member with option omitempty is left out when its value is zero *)
         list_eqb pair_eqb (jo_keys o)
-          (map (fun l => (ls_key l,
-                          match passoc (ls_path l) (if ls_exp l || ls_get l then jo_leaves o else jo_zeros o) with
-                          | Some t => t | None => "<no-read>" end))
-               (filter ls_in_json ls)) &&
+          (flat_map (fun l =>
+                       let tok := match passoc (ls_path l) (if ls_exp l || ls_get l then jo_leaves o else jo_zeros o) with
+                                  | Some t => t | None => "<no-read>" end in
+                       let zero := match passoc (ls_path l) (jo_zeros o) with Some z => z | None => "<no-zero>" end in
+                       if tag_omitempty (ls_tag l) && String.eqb tok zero then [] else [(ls_key l, tok)])
+                    (filter ls_in_json ls)) &&
         (* Unmarshal(Marshal v) into w: exported fields and fields with both accessors hold v's value, a setter
-           without getter gives zero, everything else in w is untouched *)
+           without getter gives zero, everything else in w (incl. fields tagged "-") is untouched *)
         Nat.eqb (length (jo_after o)) (length (jleaves c sd)) &&
         forallb (fun p =>
            match passoc p (jo_after o) with
@@ -161,7 +195,8 @@ Definition Pb_jstruct (c : jcase) (sv : view) (o : jobs) : bool :=
            | Some a =>
                let expected :=
                  match find (fun l => path_eqb (ls_path l) p) ls with
-                 | Some l => if ls_exp l || (ls_get l && ls_set l) then passoc p (jo_leaves o)
+                 | Some l => if ls_dash l then passoc p (jo_before o)
+                             else if ls_exp l || (ls_get l && ls_set l) then passoc p (jo_leaves o)
                              else if ls_set l then passoc p (jo_zeros o)
                              else passoc p (jo_before o)
                  | None => passoc p (jo_before o)
@@ -193,6 +228,22 @@ Definition complete_view (c : jcase) (sd : sdecl) : bool :=
              negb (existsb (String.eqb (fst e)) (jc_order c)) || before_in (jc_order c) (fst e) (sd_name sd))
           (first_embedded (jc_pkg c) (jc_fuel c) sd).
 
+(* the accessor Go selects on *T for the NAME Pascal(f) / Set+Pascal(f) of a selected unexported leaf f is an accessor
+   of f itself -- makeJson looks accessors up by name only (finding K_json_accessor_by_name: an own field without setter
+   next to an embedded struct that promotes a setter of the same name for ITS field) *)
+Definition by_name_ok (c : jcase) (sv : view) (sd : sdecl) : bool :=
+  forallb (fun p =>
+     let n := last p "" in
+     is_exported n ||
+     forallb (fun getter : bool =>
+        let on := if getter then fst (type_switch (jc_flags c) sd) else snd (type_switch (jc_flags c) sd) in
+        negb on ||
+        match find_method (jc_pkg c) sv (jc_fuel c) (self_inst sd) (if getter then getter_name n else setter_name n) with
+        | Some pm => negb (mkind_eqb (gm_kind (snd pm)) (if getter then MGet else MSet)) || path_eqb (accessor_path pm) p
+        | None => true
+        end) [true; false])
+    (selectable_leaves (jc_pkg c) (jc_fuel c) sd).
+
 Definition guard_js (c : jcase) : bool :=
   nodup_str (jc_order c) &&
   Nat.eqb (length (jstructs_of_order c)) (length (jc_order c)) &&
@@ -200,7 +251,7 @@ Definition guard_js (c : jcase) : bool :=
    forallb (fun sd => c11_guard (jc_pkg c) (jc_flags c) (jc_fuel c) sd &&
                       accessors_visible (jc_pkg c) sv (jc_fuel c) sd &&
                       not_self_embedded (jc_pkg c) (jc_fuel c) sd &&
-                      complete_view c sd &&
+                      complete_view c sd && by_name_ok c sv sd &&
                       spec_keys_ok (leaf_specs c sv sd)) (jstructs_of_order c)).
 
 (* member names that collide under case folding (computed from what go/types shows of the shadow struct):
@@ -224,11 +275,17 @@ Definition aligned_js (c : jcase) : bool :=
   end.
 
 (* verdicts as in CtorGetSetCorr *)
+(* verdicts: 0 agree and the property holds; 1 model and implementation differ; 2 inside the guard and the property fails
+   on the observation -- or the hypotheses of the round-trip theorem (json_aligned, json_keys_ok) FAIL on the model's
+   output: the JSON code would call an accessor of another field; 3 outside the guard; 4 harness error *)
 Definition jverdict (c : jcase) : N :=
-  if guard_js c && aligned_js c then
-    if Pb_js c then (if agree_js c then 0%N else 1%N) else 2%N
+  if guard_js c then
+    if aligned_js c then (if Pb_js c then (if agree_js c then 0%N else 1%N) else 2%N) else 2%N
   else if existsb (fun o => negb (N.eqb (jo_status o) 0)) (jc_structs c) || existsb shadow_keys_collide (jc_structs c) ||
           agree_js c then 3%N else 1%N.
+
+(* for the evidence: which in-guard packages fail the alignment check (expected: none) *)
+Definition aligned_failures (cs : list jcase) : list bool := map (fun c => guard_js c && negb (aligned_js c)) cs.
 
 Fixpoint jmismatches_from (i : N) (cs : list jcase) : list (N * N) :=
   match cs with
